@@ -409,7 +409,40 @@ theorem stepA_tick {c : Cfg} {a a' : StA} {d : Nat} (h : stepA c a (.tick d) = s
   · cases h; exact ⟨rfl, rfl, rfl, rfl, rfl, rfl⟩
   · cases h
 
+theorem stepA_extCancel {c : Cfg} {a a' : StA} (h : stepA c a .extCancel = some a') :
+    (a.ph 0 = .running ∧ a.creq 0 = false) ∧
+    a' = { a with creq := setAt a.creq 0 true } := by
+  simp only [stepA] at h
+  split at h
+  · rename_i hg; cases h; exact ⟨hg, rfl⟩
+  · cases h
+
 /-! ### preservation, event by event -/
+
+/-- a cancellation requested from outside on the top-level task: only `creq 0` changes, and `0` is nobody's job -/
+theorem invB_extCancel (c : Cfg) (w : WF c) (st st' : StB)
+    (hA : InvA c st.a) (hinv : InvB c st) (h : stepB c st .extCancel = some st') : InvB c st' := by
+  simp only [stepB] at h
+  split at h
+  · cases h
+  · rename_i a' ha
+    cases h
+    obtain ⟨⟨hrun, hcr⟩, rfl⟩ := stepA_extCancel ha
+    exact
+      { hinv with
+        loopClean := by
+          intro s' hl k hk
+          have := hinv.loopClean s' hl k hk
+          have hk0 : k ≠ 0 := (mem_children.1 hk).2.1
+          simpa [setAt, hk0] using this
+        exitCancelled := by
+          intro s' he k hk hlive
+          have := hinv.exitCancelled s' he k hk hlive
+          simp only [setAt]; split <;> simp_all
+        carrivedCreq2 := by
+          intro s' hc
+          have := hinv.carrivedCreq2 s' hc
+          simp only [setAt]; split <;> simp_all }
 
 theorem invB_bodyEnd (c : Cfg) (w : WF c) (st st' : StB) (j : Nat) (ok : Bool)
     (hA : InvA c st.a) (hinv : InvB c st) (h : stepB c st (.bodyEnd j ok) = some st') : InvB c st' := by
@@ -924,7 +957,7 @@ theorem invB_cancelArrive (c : Cfg) (w : WF c) (st st' : StB) (s : Nat)
   simp only [stepB] at h
   split at h
   · rename_i hg
-    obtain ⟨hs0, hsn, hss, hrun, hcr, hca⟩ := hg
+    obtain ⟨hsn, hss, hrun, hcr, hca⟩ := hg
     split at h
     · rename_i hloop
       split at h
@@ -2847,6 +2880,7 @@ theorem invB_step (c : Cfg) (hwf : c.wf = true) (st st' : StB) (e : EvB)
   | sdTimeoutFire s => exact invB_sdTimeoutFire c w st st' s hA hinv h
   | sdTidyReturn s pick => exact invB_sdTidyReturn c w st st' s pick hA hinv h
   | tick d => exact invB_tick c w st st' d hA hinv h
+  | extCancel => exact invB_extCancel c w st st' hA hinv h
 
 /-- both invariants are carried along any accepted history -/
 theorem inv_accept (c : Cfg) (hwf : c.wf = true) (evs : List EvB) (st0 st : StB)
